@@ -51,8 +51,13 @@ func runC05(c *core.Ctx) *core.Outcome {
 	if t.Chance(3, 4) {
 		cfg.CacheSize = 0
 	}
+	if t.Chance(1, 4) {
+		// with a (generous) output size the renderer keeps its own record of what is mapped for the sizer
+		cfg.OutputSize = uint32(t.Range(300, 3000))
+	}
 	prof := c05Profile(cfg.FlagCount)
 	prof.ManySyms = t.Chance(1, 20)
+	prof.ReloadAfterMap = true
 	a := app.Generate(t, prof)
 	if err := a.Validate(); err != nil {
 		panic("generator produced ill-formed app: " + err.Error())
